@@ -1359,11 +1359,17 @@ class Executor:
     def loop_spec(self, frame, node):
         """loops are numbered statically: 1-based position among the loop
         statements of the function in source order (nested defs excluded)"""
-        no = _loop_ordinals(frame.func.node).get(id(node), 0)
+        ords = _loop_ordinals(frame.func.node)
+        no = ords.get(id(node), 0)
         c = self.registry.get(frame.func.qualname)
         if c is None:
             return None, no
-        return c.loops.get(no), no
+        # a contract may also name a loop by its kind ("while1": the first
+        # while statement), which survives the insertion of loops of the other kind
+        spec = c.loops.get(no)
+        if spec is None:
+            spec = c.loops.get(ords.get(("kind", id(node))))
+        return spec, no
 
     def s_While(self, node, frame):
         spec, no = self.loop_spec(frame, node)
@@ -1482,8 +1488,13 @@ def _loop_ordinals(fnode):
                                   ast.Lambda, ast.ClassDef)):
                     continue
                 if isinstance(c, (ast.For, ast.AsyncFor, ast.While)):
-                    out[id(c)] = len(out) + 1
+                    kinds["all"] = kinds.get("all", 0) + 1
+                    out[id(c)] = kinds["all"]
+                    kind = "while" if isinstance(c, ast.While) else "for"
+                    kinds[kind] = kinds.get(kind, 0) + 1
+                    out[("kind", id(c))] = f"{kind}{kinds[kind]}"
                 visit(c)
+        kinds = {}
         visit(fnode)
         _LOOP_ORD[key] = (fnode, out)
     return _LOOP_ORD[key][1]
